@@ -55,7 +55,7 @@ Qed.
    it on this run is, for every buffer and every search depth, the model's process_read_buf — the
    whole buffer when it is not longer than the depth, else its last [sd] bytes, cut at the first
    line feed when that is not at index 0 *)
-From Scrapli Require Import DecideLang GeneratedSkel ChannelSrc.
+From Scrapli Require Import DecideLang GeneratedSkel WindowSrc SendInputSrc.
 Theorem C01_process_read_buf_is_source : forall rb sd,
   exists w, prb_run (Nat.leb (length rb) sd)
                     (match lf_index_pos (tail_of rb sd) with Some _ => true | None => false end) = Some w
@@ -74,7 +74,7 @@ Print Assumptions C01_process_read_buf_is_source.
    interim patterns) unless eager, result; a deadline at a read yields the timeout error, a loss
    the transport's own error, and nothing is invoked after the failing read — for EVERY
    configuration, input, options and sequence of read outcomes. *)
-From Scrapli Require Import DecideLang GeneratedSkel InteractiveSrcDefs ChannelSrc.
+From Scrapli Require Import DecideLang GeneratedSkel InteractiveSrcDefs WindowSrc SendInputSrc.
 Theorem C01_send_input_is_source :
   sin_table_ok = true
   /\ forall cfg input o rds,
@@ -83,3 +83,22 @@ Theorem C01_send_input_is_source :
           snd (sin_expected (o_exact o) (o_eager o) (is_nil (o_interim o)) (fail_src o input rds))).
 Proof. exact send_input_is_source. Qed.
 Print Assumptions C01_send_input_is_source.
+
+(* every test that the translated functions of this property make is one the environments of their
+   ties were written for: a test that is new in the source breaks this (an unknown equality would
+   otherwise evaluate to false without notice) *)
+From Scrapli Require Import DecideLang GeneratedSkel SendInputSrc.
+Theorem C01_source_tests_known :
+  tests_known send_input_code send_input_known = true /\
+  window_tests_known = true.
+Proof. split; [exact send_input_tests_known | exact window_tests_known_true]. Qed.
+Print Assumptions C01_source_tests_known.
+
+(* the window in which an echo is searched: getProcessReadBufSearchDepth as the source has it is the
+   model's search_depth, for every prompt search depth and every input length *)
+Theorem C01_search_depth_is_source : forall psd ilen,
+  let gt := Nat.ltb psd (input_search_depth_multiplier * ilen)%nat in
+  sd_run gt = Some gt
+  /\ search_depth psd ilen = if gt then (input_search_depth_multiplier * ilen)%nat else psd.
+Proof. exact search_depth_is_source. Qed.
+Print Assumptions C01_search_depth_is_source.
